@@ -59,6 +59,9 @@ Stream(s) ==
     [] s.body = "oversize"  -> [msgs |-> <<>>, codes |-> IF s.limit > 0 THEN {3, 8} ELSE {0}]
     [] s.body = "cnoenc"    -> IF s.enc = "gzip" THEN [msgs |-> <<1>>, codes |-> {0}]     \* the header does name it
                                ELSE [msgs |-> <<>>, codes |-> IF RawBody(s) THEN {3} ELSE {3, 13}]
+    \* the same flag on a payload that is NOT compressed (a plain, valid message): no encoding named -> the flag is a
+    \* protocol error whatever the payload looks like; gzip named -> the payload does not inflate
+    [] s.body = "cflagplain" -> [msgs |-> <<>>, codes |-> IF s.enc = "gzip" THEN {3} ELSE {3, 13}]
     \* a first frame with protocol-specific flag bits (end-of-stream / trailer / unknown), empty or not:
     \* never a message.  Where the library reads the first message itself the call must fail; stream-shaped
     \* handlers see the end of their input one way or the other (don't care).
